@@ -97,6 +97,57 @@ def toggle_module(spec, tab, weaken):
     return txt
 
 
+def race_sweep(ctx):
+    """H: happens-before race detection on the real code.  Every container and reclaimer is run under the scheduler with --race: the runtime
+       keeps vector clocks that follow the memory orders and fences the code declares (release / acquire, release sequences, fences,
+       seq_cst, mutexes, thread start / join) and reports every plain access or free that conflicts with an access of another thread
+       not ordered before it.  A race record has no action in the history specs: TLC rejects the execution."""
+    import xvlib
+    from props import reclaim_common as RC, queue_common as QC, hm_common as HC, vy_common as VC
+    q = ctx.quick
+    build(['deque', 'seqlock', 'leftright', 'reclaim', 'queue_ms', 'queue_ram', 'queue_nik', 'queue_bounded', 'queue_kirsch', 'hm', 'vy'])
+    xvlib.EXTRA_ALL[0] = '--race'
+    try:
+        n0 = len(ctx.tv)
+        pb, mx = (2, 250) if q else (3, 6000)
+        # reclaimers: every scheme, dynamic slot growth (more guards than K), thread exit, region guards, directed three-role scenarios
+        rprogs = ['acq0:0,tch0,cpy0:1,rst0,tch1;swp0:0,swp0:0', 'acq0:0,acq1:1,acq2:2,tch0,tch1,tch2;swp3:3,swp0:3', 'rgn1,acq0:0,tch0,rgn0;swp0:0,swp0:0',
+                  'swp0:0,acq1:1;acqe0:0,tch0,swp1:1', RC.DIRECTED[0], RC.DIRECTED[2]]
+        cfgs = RC.CORE + ['hpd1', 'hed1', 'lfrc2', 'geb_all_always_none', 'geb_one_always_lazy', 'geb_n2_thr2_none'] + ([] if q else [c for c in RC.ALL if c not in RC.CORE])
+        jobs = ['%s;;%s' % (c, p) for c in dict.fromkeys(cfgs) for p in rprogs if RC.guards_needed(';' + p) <= RC.SLOTTED.get(c, 99)]
+        RC.run_client(ctx, jobs, pb=pb, max_exec=mx, tag='race_rc')
+        # queues
+        recl = ['hp3', 'he3', 'ebr0', 'nebr0', 'debra0', 'qsbr', 'stamp', 'lfrc']
+        qjobs = []
+        for r in recl:
+            qjobs += ['ms/%s/I;push1;push2,pop;pop,push3' % r, 'ms/%s/U;;push1,push2;pop,pop' % r, 'ram21/%s/P;push1;push2,push3;pop,pop' % r, 'ram10/%s/I;;push1,push2;pop,pop' % r,
+                      'nik10/%s/I;push1;push2,pop;pop,push3' % r, 'nik21/%s/U;;push1,push2,push3;pop,pop' % r]
+            if r != 'lfrc':
+                qjobs += ['kf2/%s/P;push1;push2,pop;pop,push3' % r, 'kf1/%s/U;;push1,push2;pop,pop' % r]
+        qjobs += ['nkb2/-/I;push1;push2,pop;pop,push3', 'vyu2/-/I;push1;push2,pop;pop,push3', 'vyu2/-/U;;push1,wpush2;pop,wpop', 'bkf2s2/-/P;push1;push2,pop;pop,push3']
+        QC.run_queues(ctx, qjobs, pb=pb, max_exec=mx, tagx='race_')
+        # Harris-Michael set / map incl. iteration; vyukov map incl. extension lists, grow, iterators (storage modes without the known findings)
+        hjobs = []
+        for r in ['hp3', 'he3', 'ebr0', 'qsbr', 'stamp', 'lfrc']:
+            hjobs += ['set/%s;emp1,emp3;emp2,era1;con2,era3' % r, 'map2mc/%s;emp1,emp2;era1,goe3;trav' % r, 'map1mh/%s;emp1,emp2,emp3;trave1;era2,emp2' % r]
+        HC.run_hm(ctx, hjobs, pb=pb, max_exec=mx, tagx='race_')
+        vjobs = []
+        for r in ['hp3', 'ebr0', 'stamp', 'qsbr']:
+            vjobs += ['vy128iic/%s;emp1,emp2,emp3,emp4,emp5;era4,emp6;get5,get4' % r, 'vy8iih/%s;emp1,emp2;emp3,era1;get1,get3' % r,
+                      'vy128isc/%s;emp1,emp2,emp3,emp4;trave3;get4,emp5' % r]
+        VC.run_vy(ctx, vjobs, pb=pb, max_exec=mx, tagx='race_', max_steps=8000)
+        # deque (fixed capacity), seqlock, left_right
+        from props import c12 as P12, c13 as P13, c14 as P14
+        for drv, mod, hc, progs in [('deque', 'Deque_Hist', P12.HCONSTS, ['f4;push1;push2,pop,pop;steal,steal', 'f2;;push1,push2,pop;steal;steal']),
+                                    ('seqlock', 'Register_Hist', P14.HCONSTS, ['s2b16;;store2,update10;load,load', 's1b24;;store2,store3;load;load', 's3b12;;store2,update5;load,load']),
+                                    ('leftright', 'LeftRight_Hist', P13.HCONSTS, ['lr;;update10,update5;load,load', 'lr;;update10;load;load'])]:
+            x = explore(ctx, 'race_%s' % drv, drv, progs, mode='dfs', pb=pb, max_exec=mx * 2)
+            add_tv_stats(check_histories(ctx, x['name'], drv, mod, hc, x), [x])
+        log('  H race sweep: %d explorations validated' % (len(ctx.tv) - n0))
+    finally:
+        xvlib.EXTRA_ALL[0] = ''
+
+
 def run(ctx):
     build(['deque', 'seqlock', 'leftright', 'queue_bounded'])
     q = ctx.quick
@@ -166,6 +217,7 @@ def run(ctx):
     jobs.append(lambda: tlc_mc(ctx, 'ra_toggle_ms_link_rlx', 'MSQueue_RA', dict(ms_ra, Ord='<-OrdX'), invariants=['NoDataRace', 'Conservation', 'MemorySafe'], view='mcview', constraints=['MsgBound5'],
                                workers=4, expect='violation', extra_files={'MSQueue_RA.tla': mst}, tmo=1500))
     run_parallel(jobs, maxw=4)
+    race_sweep(ctx)
     # A counterexample of the weak-memory model instantiated with the order table EXTRACTED from this tree is reported if the step-level
     # binding of that spec accepted every real execution in this run (the model then mirrors the code on the steps involved).
     bound_ok = {sp: (acc == tot and tot > 0) for sp, (acc, tot) in bind.items()}
